@@ -1382,15 +1382,18 @@ func (p *balloons) setConfig(bpoptions *BalloonsOptions) error {
 		// Available CPUs not specified, default to all on-line CPUs.
 		availableCpus = p.options.System.CPUSet().Difference(p.options.System.Offlined())
 	}
+	savedAllowed, savedReserved := p.allowed, p.reserved
 	p.allowed = availableCpus
 
 	setOmittedDefaults(bpoptions)
 
 	reservedBalloonDef, defaultBalloonDef, err := p.fillBuiltinBalloonDefs(bpoptions)
 	if err != nil {
+		p.allowed, p.reserved = savedAllowed, savedReserved
 		return err
 	}
 	if err = p.validateConfig(bpoptions); err != nil {
+		p.allowed, p.reserved = savedAllowed, savedReserved
 		return balloonsError("invalid configuration: %w", err)
 	}
 	p.fillLoadVirtDevices(bpoptions.LoadClasses)
